@@ -297,4 +297,4 @@ def run(tier: str, seed: int) -> int:
                        "expression at 31 frequencies (rtol 1e-7)")
     v.assumptions += ["corners + off-default values, not the continuum; the numeric equality is checked by the harness, not by TLC",
                       "non-finite values on either side are skipped"]
-    return v.finish(level="model_checking")
+    return v.finish(level="exploration")
